@@ -43,6 +43,12 @@ def api_witness(slice_, timeout):
         bad = [s for s in sp if s[1] < 0]
         if bad:
             return {'state': 'counterexample', 'cex': {'w': kind}, 'detail': 'entity with a negative start: %r' % (bad,), 'queries': 1}
+    elif kind == 'F41':
+        from recognizers_number_with_unit import recognize_dimension
+        sp = _spans(recognize_dimension('12 两米', 'zh-cn'))
+        o = _overlapping(sp)
+        if o:
+            return {'state': 'counterexample', 'cex': {'w': kind}, 'detail': 'overlapping entities %r' % (o,), 'queries': 1}
     elif kind == 'F37-overlap':
         from recognizers_date_time import recognize_datetime
         sp = _spans(recognize_datetime('明天三天后', 'zh-cn', reference=datetime(2016, 11, 7)))
